@@ -181,7 +181,11 @@ fn resolve(
         }
 
         if let Some(vbox) = view_box {
-            let size = Size::from_wh(r.width() * stroke_scale, r.height() * stroke_scale).unwrap();
+            // The scaled size can overflow to infinity or underflow to zero.
+            let Some(size) = Size::from_wh(r.width() * stroke_scale, r.height() * stroke_scale)
+            else {
+                return;
+            };
             let vbox_ts = vbox.to_transform(size);
             let (sx, sy) = vbox_ts.get_scale();
             ts = ts.pre_scale(sx, sy);
